@@ -220,6 +220,17 @@ def rule_F2(ctx: Ctx) -> None:
                     it = k.value.generators[0].iter
                     if isinstance(it, ast.List):
                         passed |= {e.value for e in it.elts if isinstance(e, ast.Constant)}
+        # a component is read from the key of the same name (cfg <- "cfg", generation_metadata_collected <- same)
+        crossed = []
+        if len(ctor) == 1:
+            for k in ctor[0].keywords:
+                if k.arg in ("cfg", "generation_metadata_collected"):
+                    ks = X.keys_read(k.value, dparam)
+                    if ks and ks != {k.arg}:
+                        crossed.append((k.arg, sorted(ks)))
+        if crossed:
+            ctx.violation(r, {"reader": r.name, "component_read_from_other_key": crossed}, "each constructor component is read from the stored key of the same name",
+                          "the loaded dataset gets another component's value")
         ctx.judge(r, passed == init_params,
                   {"writer": w.name, "reader": r.name, "stored_but_never_read": dropped, "constructor_arguments_from_data": sorted(passed),
                    "constructor_parameters": sorted(init_params), "tabulated_redundant_keys": REDUNDANT},
